@@ -16,6 +16,17 @@ pub struct MutPlan {
     pub next: usize,
     pub seen: Vec<(String, String, usize)>, // (kind, type, literal length)
     pub applied: bool,
+    /// amplification (Hostile.tla `amplify`): the item `count` (byte `sub` of a literal) is set to its largest value, the item
+    /// `repeat` is emitted over and over until the datagram holds `fill` bytes, and nothing follows
+    pub amp: Option<Amp>,
+}
+
+#[derive(Debug, Clone, Copy)]
+pub struct Amp {
+    pub count: usize,
+    pub sub: usize,
+    pub repeat: usize,
+    pub fill: usize,
 }
 
 thread_local! {
@@ -477,7 +488,7 @@ pub fn encode(rng: &mut StdRng, items: &[Value], fixed: &HashMap<String, (Value,
     let mut offsets = Vec::with_capacity(items.len());
     let mut uniq: HashMap<String, HashSet<String>> = HashMap::new();
     let mut lenrest: Option<(usize, String)> = None;
-    for it in items {
+    for (ii, it) in items.iter().enumerate() {
         offsets.push(bytes.len());
         let item_start = bytes.len();
         // mutation plan bookkeeping
@@ -502,7 +513,7 @@ pub fn encode(rng: &mut StdRng, items: &[Value], fixed: &HashMap<String, (Value,
                 }
             }
         });
-        let _ = gi;
+        let amp = MUT.with(|m| m.borrow().as_ref().and_then(|p| p.amp));
         if let Some((desc, _)) = &target {
             if it["k"] == "j" && desc["op"] == "json_value" {
                 // JSON member replaced / removed
@@ -582,6 +593,68 @@ pub fn encode(rng: &mut StdRng, items: &[Value], fixed: &HashMap<String, (Value,
             }
             k => panic!("unknown item kind {k}"),
         }
+        if let Some(a) = amp {
+            if gi == a.count {
+                // the largest value this item can carry
+                match it["k"].as_str().unwrap() {
+                    "lit" => {
+                        if let Some(b) = bytes.get_mut(item_start + a.sub) {
+                            *b = 0xff;
+                        }
+                    }
+                    "f" => {
+                        let ty = it["ty"].as_str().unwrap_or("");
+                        if ty.starts_with("dec_") {
+                            bytes.truncate(item_start);
+                            bytes.extend(b"65535");
+                        } else if matches!(ty, "u8" | "i8" | "u16le" | "u16be" | "u32le" | "u32be" | "i32le" | "i32be") {
+                            let w = bytes.len() - item_start;
+                            bytes.truncate(item_start);
+                            bytes.extend(std::iter::repeat(0xff).take(w.saturating_sub(1)));
+                            // (keep the sign bit clear: a count, not -1)
+                            bytes.push(if ty.ends_with("be") || w == 1 { 0xff } else { 0x7f });
+                            if ty.ends_with("be") && w > 1 {
+                                bytes[item_start] = 0x7f;
+                            }
+                        }
+                    }
+                    _ => {}
+                }
+            }
+            if gi == a.repeat {
+                let mut unit = bytes[item_start ..].to_vec();
+                // a one-byte literal after a string is its terminator / separator: part of the repeated unit
+                if let Some(nx) = items.get(ii + 1) {
+                    if nx["k"] == "lit" && nx["b"].as_array().map_or(false, |a| a.len() == 1) {
+                        let t = nx["b"][0].as_u64().unwrap() as u8;
+                        unit.push(t);
+                        bytes.push(t);
+                        // the shortest distinct strings carry the most entries per byte received
+                        if matches!(it["k"].as_str(), Some("txt")) || matches!(it["ty"].as_str(), Some("cstr" | "text" | "atext" | "oneoftext")) {
+                            unit = vec![b'a', b'a', t];
+                        }
+                    }
+                }
+                if !unit.is_empty() {
+                    let mut k = 0u32;
+                    while bytes.len() + unit.len() <= a.fill {
+                        // (vary one byte so that repeated names are distinct where that matters)
+                        let mut u = unit.clone();
+                        if u.len() >= 2 {
+                            let n = u.len();
+                            u[0] = 1 + (k % 127) as u8;
+                            if n >= 3 {
+                                u[1] = 1 + ((k / 127) % 127) as u8;
+                            }
+                        }
+                        bytes.extend(u);
+                        k += 1;
+                    }
+                    MUT.with(|p| p.borrow_mut().as_mut().unwrap().applied = true);
+                    break; // nothing follows
+                }
+            }
+        }
         if let Some((desc, sub)) = target {
             let normal = bytes[item_start ..].to_vec();
             if let Some(m) = mutate_item(rng, it, &desc, sub, &normal) {
@@ -590,6 +663,10 @@ pub fn encode(rng: &mut StdRng, items: &[Value], fixed: &HashMap<String, (Value,
                 MUT.with(|p| p.borrow_mut().as_mut().unwrap().applied = true);
             }
         }
+    }
+    // (an amplified reply ends early: the items that were not emitted start - and end - at the end)
+    while offsets.len() < items.len() {
+        offsets.push(bytes.len());
     }
     if let Some((at, ty)) = lenrest {
         assert_eq!(ty, "u16be");
